@@ -42,6 +42,11 @@ fn atoms() -> Vec<T> {
         ".b[.a]?",
         "(.b)[.a:]?",
         ".[.[0]?]?",
+        // conditions with no or several outputs (an update folds over them)
+        "select((true, true))",
+        "select(.[]?)",
+        "if empty then .a else .b end",
+        "if (true, false) then .a? else .[0]? end",
     ] {
         v.push(p(a));
     }
@@ -67,6 +72,7 @@ fn binaries() -> Vec<Box<dyn Fn(T, T) -> T + Sync + Send>> {
         Box::new(comma),
         Box::new(|x, y| bin(x, Op::Alt, y)),
         Box::new(|x, y| T::If(vec![(idx(T::Id, num(0)), x)], Some(b(y)))),
+        Box::new(|x, y| T::If(vec![(comma(call0("true"), call0("false")), x)], Some(b(y)))),
     ]
 }
 
